@@ -41,7 +41,7 @@ def run(ctx, build, verdict, ev):
         s_lits, a_lits = [], []
         s_idx, a_idx = [], []
         for _ in range(n_params):
-            p = termlib.gen_params(name, ctx.rng, vertical=True)
+            p = termlib.gen_params(name, ctx.rng, vertical=True, adjacent=True)
             names, args = arglist(cls, p)
             real = cls("t", *args)
             clone = ocls("t", *args)
